@@ -326,6 +326,11 @@ impl<'e> EventLoop<'e> {
                 if crate::common::constants::IO_URING_TIMEOUT_USERDATA == token {
                     continue;
                 }
+                // a zero-copy send posts a second completion that only says "the buffer is free
+                // again"; it carries the sender's token but is nobody's result
+                if io_uring::cqueue::notif(cqe.flags()) {
+                    continue;
+                }
                 // resolve completed read/write tasks
                 let result = c_longlong::from(cqe.result());
                 if let Some((_, pair)) = self.syscall_wait_table.remove(&token) {
